@@ -102,6 +102,17 @@ CHECKS = {
         note="two block names; block bodies are text/global output/block.super; text before extends is outside the space (docs silent)",
         ref="DESIGN.md section 6 C08",
     ),
+    "C09": dict(
+        engine="LiquidHistory",
+        technique="TLA+ model of call histories on long-lived objects (LiquidHistory.tla), HistoryIndependent checked by TLC (refuted with "
+                  "the date-memo deviation); every history replayed on shared Environment/loader/Template objects under a controlled clock",
+        text="all histories of 2 calls (exhaustive) and random ones of 6-8 over {render, render_async, analyze, from_string, get_template} x 7 "
+             "templates (counters, cycles, loop offsets, captures/macros, inheritance, partials, clock values) x 2 data sets x faults at the "
+             "k-th data access x 2 differently configured environments x clock ticks; each step must equal the same call on freshly built "
+             "objects at the same clock value",
+        note="oracle is library-on-fresh-objects (the model states only that no state persists); concurrency of renders is covered by C03's schedules",
+        ref="DESIGN.md section 6 C09",
+    ),
     "C10": dict(
         engine="LiquidSem",
         technique="TLC enumeration of every subset of namespace layers binding one name (MC_Layers) replayed into the library; deep "
